@@ -8,6 +8,7 @@ import (
 
 	"golang.org/x/tools/go/ssa"
 
+	"verif/checker/internal/effects"
 	"verif/checker/internal/load"
 	"verif/checker/internal/ssau"
 )
@@ -105,10 +106,101 @@ type intervalEnv struct {
 	// trusted reports conversions that the residual table accepts with a
 	// reason; downstream values may rely on them being in range.
 	trusted func(cv *ssa.Convert) bool
+	// at is the instruction currently being decided (set by rules that need
+	// to reason about what happens between a definition and this use).
+	at ssa.Instruction
 }
 
 func newIntervalEnv(p *load.Program, fn *ssa.Function) *intervalEnv {
-	return &intervalEnv{p: p, fn: fn, ff: ssau.ComputeFacts(fn, ssau.StoreKills), notes: map[string]bool{}, kinds: map[string]*ssau.EnumFlow{}}
+	return &intervalEnv{p: p, fn: fn, ff: ssau.ComputeFacts(fn, callAndStoreKills(p)), notes: map[string]bool{}, kinds: map[string]*ssau.EnumFlow{}}
+}
+
+// callAndStoreKills: a store kills the facts about what it overwrites
+// (ssau.StoreKills); a call kills the facts about every struct field its
+// callees may write (effect summaries), so a bound on b.len established before
+// b.clear() is not used after it.
+func callAndStoreKills(p *load.Program) ssau.KillFunc {
+	var eff *effects.Info
+	if p != nil {
+		eff = effects.Of(p)
+	}
+	return func(in ssa.Instruction) func(ssau.Fact) bool {
+		if k := ssau.StoreKills(in); k != nil {
+			return k
+		}
+		ci, ok := in.(ssa.CallInstruction)
+		if !ok || eff == nil {
+			return nil
+		}
+		if _, isB := ci.Common().Value.(*ssa.Builtin); isB {
+			return nil
+		}
+		s := eff.CallSummary(ci)
+		if s == nil {
+			return nil
+		}
+		fn := in.Parent()
+		var roots []string
+		for i := range s.MutParams {
+			if i < len(fn.Params) {
+				roots = append(roots, "p."+fn.Params[i].Name())
+			}
+		}
+		for i := range s.MutFree {
+			if i < len(fn.FreeVars) {
+				roots = append(roots, "fv."+fn.FreeVars[i].Name())
+			}
+		}
+		// locals whose address is handed to a callee that writes
+		if !s.Pure() {
+			for _, a := range ci.Common().Args {
+				ap := ssau.Path(a)
+				if strings.HasPrefix(ap, "&a.") {
+					roots = append(roots, ap[1:])
+				}
+			}
+		}
+		globals := len(s.MutGlobal) > 0
+		unknown := s.Unknown
+		if len(roots) == 0 && !globals && !unknown {
+			return nil
+		}
+		return func(f ssau.Fact) bool {
+			memory := func(p string) bool { return strings.Contains(p, "^") || strings.Contains(p, "[") }
+			for _, pth := range []string{f.Path, f.Arg} {
+				if pth == "" || strings.HasPrefix(pth, "k:") {
+					continue
+				}
+				if unknown && memory(pth) {
+					return true
+				}
+				if globals && strings.Contains(pth, "g.") {
+					return true
+				}
+				for _, r := range roots {
+					if ssau.Mentions(pth, r) && (memory(pth) || strings.HasPrefix(r, "a.")) {
+						return true
+					}
+				}
+			}
+			return false
+		}
+	}
+}
+
+// mentionsField: path contains ".name" as a whole field selector.
+func mentionsField(path, dotName string) bool {
+	for i := 0; ; {
+		j := strings.Index(path[i:], dotName)
+		if j < 0 {
+			return false
+		}
+		e := i + j + len(dotName)
+		if e == len(path) || !(path[e] == '_' || path[e] >= '0' && path[e] <= '9' || path[e] >= 'a' && path[e] <= 'z' || path[e] >= 'A' && path[e] <= 'Z') {
+			return true
+		}
+		i = e
+	}
 }
 
 // maxLen bounds len/cap of strings and slices: the Go runtime cannot allocate
@@ -190,6 +282,41 @@ func (e *intervalEnv) refine(v ssa.Value, r ival, facts ssau.FactSet) ival {
 	return r
 }
 
+// refinePath is refine for a value known only by its canonical path (used for
+// len(x), which has no SSA value at the point of use).
+func (e *intervalEnv) refinePath(path string, r ival, facts ssau.FactSet) ival {
+	for round := 0; round < 3; round++ {
+		for f := range facts {
+			if stripConv(f.Path) != path || !strings.HasPrefix(f.Arg, "k:") {
+				continue
+			}
+			k, ok := new(big.Int).SetString(strings.TrimPrefix(f.Arg, "k:"), 10)
+			if !ok {
+				continue
+			}
+			switch f.Kind {
+			case "lt":
+				r = r.meet(ival{r.lo, new(big.Int).Sub(k, bi(1))})
+			case "le":
+				r = r.meet(ival{r.lo, k})
+			case "gt":
+				r = r.meet(ival{new(big.Int).Add(k, bi(1)), r.hi})
+			case "ge":
+				r = r.meet(ival{k, r.hi})
+			case "eq":
+				r = r.meet(ival{k, k})
+			case "ne":
+				if !r.empty() && k.Cmp(r.lo) == 0 {
+					r = ival{new(big.Int).Add(r.lo, bi(1)), r.hi}
+				} else if !r.empty() && k.Cmp(r.hi) == 0 {
+					r = ival{r.lo, new(big.Int).Sub(r.hi, bi(1))}
+				}
+			}
+		}
+	}
+	return r
+}
+
 // rangeOf computes an interval for integer value v as seen with the given
 // dominating facts.
 func (e *intervalEnv) rangeOf(v ssa.Value, facts ssau.FactSet, seen map[ssa.Value]bool, depth int) (ival, bool) {
@@ -217,6 +344,11 @@ func (e *intervalEnv) rangeOf(v ssa.Value, facts ssau.FactSet, seen map[ssa.Valu
 			if z, ok := new(big.Int).SetString(x.Value.ExactString(), 10); ok {
 				return ival{z, z}, true
 			}
+		}
+	case *ssa.Parameter:
+		if pr, ok := e.paramRangeFromCallers(x); ok && pr.within(tr) {
+			r = pr
+			e.note("every call site passes a value in this range")
 		}
 	case *ssa.Convert:
 		if xr, ok := e.rangeOf(x.X, facts, seen, depth+1); ok {
@@ -525,9 +657,9 @@ func callRange(c *ssa.Call) (ival, bool) {
 	case "bytes", "strings":
 		switch f.Name() {
 		case "Len", "Cap":
-			return ival{bi(0), maxInt}, true
+			return ival{bi(0), maxLen()}, true
 		case "Index", "IndexByte", "IndexRune", "LastIndex", "IndexAny":
-			return ival{bi(-1), maxInt}, true
+			return ival{bi(-1), maxLen()}, true
 		}
 	case "unicode/utf8":
 		switch f.Name() {
@@ -814,4 +946,116 @@ func sliceWidth(v ssa.Value) int {
 func isConstInt(v ssa.Value, k int64) bool {
 	c, ok := ssau.ConstInt(v)
 	return ok && c == k
+}
+
+var paramRangeCache = map[*ssa.Parameter]*ival{}
+var paramRangeBusy = map[*ssa.Parameter]bool{}
+
+// addressTaken: fn is used as a value somewhere (closure, method value,
+// stored), so its call sites are not all visible.
+var addrTakenCache = map[*load.Program]map[*ssa.Function]bool{}
+
+func addressTaken(p *load.Program, fn *ssa.Function) bool {
+	m, ok := addrTakenCache[p]
+	if !ok {
+		m = map[*ssa.Function]bool{}
+		for _, f := range p.Funcs {
+			for _, b := range f.Blocks {
+				for _, in := range b.Instrs {
+					for _, op := range in.Operands(nil) {
+						if g, ok := (*op).(*ssa.Function); ok {
+							if c, isCall := in.(ssa.CallInstruction); isCall && c.Common().Value == ssa.Value(g) {
+								continue
+							}
+							m[g] = true
+						}
+					}
+				}
+			}
+		}
+		addrTakenCache[p] = m
+	}
+	return m[fn]
+}
+
+// paramRangeFromCallers: for an unexported function (or method) that is only
+// ever called directly, the interval of a parameter is the join of the
+// intervals of the arguments at all module call sites.
+func (e *intervalEnv) paramRangeFromCallers(prm *ssa.Parameter) (ival, bool) {
+	fn := prm.Parent()
+	if fn == nil || e.p == nil || e.callDepth > 6 {
+		return ival{}, false
+	}
+	if r, ok := paramRangeCache[prm]; ok {
+		if r == nil {
+			return ival{}, false
+		}
+		return *r, true
+	}
+	if paramRangeBusy[prm] {
+		return ival{}, false
+	}
+	if fn.Object() == nil || fn.Object().Exported() || fn.Parent() != nil || addressTaken(e.p, fn) {
+		paramRangeCache[prm] = nil
+		return ival{}, false
+	}
+	// methods that implement an interface may be invoked dynamically
+	if fn.Signature.Recv() != nil {
+		for _, f := range e.p.Funcs {
+			for _, b := range f.Blocks {
+				for _, in := range b.Instrs {
+					if c, ok := in.(ssa.CallInstruction); ok && c.Common().IsInvoke() && c.Common().Method.Name() == fn.Name() {
+						paramRangeCache[prm] = nil
+						return ival{}, false
+					}
+				}
+			}
+		}
+	}
+	idx := -1
+	for i, q := range fn.Params {
+		if q == prm {
+			idx = i
+		}
+	}
+	if idx < 0 {
+		return ival{}, false
+	}
+	if _, ok := typeRange(prm.Type()); !ok {
+		return ival{}, false
+	}
+	paramRangeBusy[prm] = true
+	defer delete(paramRangeBusy, prm)
+	var acc *ival
+	for _, caller := range e.p.Funcs {
+		var ce *intervalEnv
+		for _, b := range caller.Blocks {
+			for _, in := range b.Instrs {
+				c, ok := in.(ssa.CallInstruction)
+				if !ok || c.Common().StaticCallee() != fn || idx >= len(c.Common().Args) {
+					continue
+				}
+				if ce == nil {
+					ce = newIntervalEnv(e.p, caller)
+					ce.callDepth = e.callDepth + 1
+				}
+				ar, ok := ce.rangeOf(c.Common().Args[idx], ce.ff.At(in), map[ssa.Value]bool{}, 0)
+				if !ok {
+					return ival{}, false
+				}
+				if acc == nil {
+					cp := ar
+					acc = &cp
+				} else {
+					j := acc.join(ar)
+					acc = &j
+				}
+			}
+		}
+	}
+	paramRangeCache[prm] = acc
+	if acc == nil {
+		return ival{}, false
+	}
+	return *acc, true
 }
